@@ -132,7 +132,31 @@ def check_C02(ctx):
     corr(ctx, 'G-random-long', gens.local_random(ctx.rnd, 40000 if not ctx.thorough() else 400000), project, describe=describe)
     corr(ctx, 'G-nul', ['L %s -' % hx(x) for x in gens.with_nul(list(gens.all_strings([b'a', b'.', b'"', b'\\', b' '], 3)))], project, describe=describe, exhaustive=True,
          note='a NUL inside the range (outside the property: the scanners stop there; compared with the model all the same)')
-    return finish(ctx, rule='L cases: is_{822,5321,5322,6531}_local on (s, rest); projection = accept/reject of the three ASCII scanners; '
+    # the same grammar seen through the e-mail composers and the facade: <local>@ok.com / @[1.2.3.4] in the three ASCII modes is
+    # accepted iff the local part is (the domain is valid, TLD checking off), in particular with '@' inside quoted words
+    locs = [bytes.fromhex(l.split()[1]) if l.split()[1] != '-' else b'' for l in gens.local_class(4)]
+    locs += [b'a."@"', b'a."b@c"', b'a."@".b', b'"@"', b'"a@b".c', b'"@".a', b'a."\\@"', b'"a"."@"."b"', b'a.b."c@d".e', b'a@b', b'a."@', b'a"@"']
+    locs = [l for l in locs if 0 not in l and len(l) <= 64]
+    addrs = [l + b'@' + d for l in locs for d in (b'ok.com', b'[1.2.3.4]')]
+    el = gens.e_lines(addrs, {}, modes=(0, 1, 2), tlds=(0,))
+    corr(ctx, 'local@domain(composers)', el, lambda ln, o: dec(o.split(' ')[0]), describe=lambda ln, a, b: 'is_<mode>_email on <local>@<valid domain> decides differently from the model (whose local-part half is the grammar of C02_local_part_grammar): %s vs %s' % (a, b),
+         nontrivial=nontriv_addr, note='every class string of length <= 4 and quoted-@ shapes as the local part of an address with a valid domain, modes 822/5321/5322')
+    # relation on the implementation alone: composer decision == scanner decision on the local part (domain valid, local part has no unquoted '@' by construction of the split)
+    lib = ctx.snap.lib()
+    c_e, _ = vlib.run_both(lib, ctx.snap, el)
+    ll = ['L %s %s' % (hx(l), hx(b'@ok.com')) for l in locs]
+    c_l, _ = vlib.run_both(lib, ctx.snap, ll)
+    ldec = {l: o.split(' ') for l, o in zip(locs, c_l)}
+    nb = 0
+    for ln, o in zip(el, c_e):
+        f = ln.split(' '); a = bytes.fromhex(f[3]); m = int(f[1]); l = a[:a.rfind(b'@')]
+        if l in ldec and len(ldec[l]) == 4 and len(l) <= 64 and l:
+            if dec(ldec[l][m]) != dec(o.split(' ')[0]) and nb < 3:
+                nb += 1; relation_violation(ctx, 'C02_grammar_through_the_composers', {'case': ln, 'is_email': o, 'scanner_on_local_part': ldec[l],
+                                            'explanation': 'a local part accepted (rejected) by the mode\'s scanner is rejected (accepted) by the mode\'s e-mail validator although the domain is valid'})
+    fl = facade_lines(addrs[::3], {}, modes=(0, 1, 2), tlds=(0,))
+    corr(ctx, 'local@domain(facade)', fl, facade_decision, nontrivial=lambda ln, o: True, describe=lambda ln, a, b: 'eav_is_email decision differs from the model: %s vs %s' % (a, b))
+    return finish(ctx, rule='L cases: is_{822,5321,5322,6531}_local on (s, rest); projection = accept/reject of the three ASCII scanners; E/A cases: the same local parts through is_*_email and eav_is_email; '
                   'non-trivial = not rejected as empty; distinct by case line')
 
 
@@ -169,8 +193,29 @@ def check_C04(ctx):
     eproj = lambda ln, o: dec(o.split(' ')[0])
     corr(ctx, 'email(tld off)', gens.e_lines([b'x@' + d for d in sample if b'@' not in d], orc, tlds=(0,)), eproj, describe=describe,
          nontrivial=lambda ln, o: not o.startswith(('-16', '-3 ')))
+    # TLD checking on: the syntax verdict must not depend on what the last labels are (reserved, listed, unlisted): dots, hyphens and
+    # empty labels around such names, through is_utf8_domain, the four composers and the facade
+    bases = [b'a.test', b'test', b'example.com', b'a.example.org', b'localhost', b'b.onion', b'a.io', b'b.com', b'x.museum', b'a.zz', b'io', b'1.2', b'a.xn--p1ai']
+    tails = [b''.join(t) for k in range(0, 4) for t in itertools.product([b'.', b'-', b'a', b'1'], repeat=k)]
+    fam = sorted(set([b + t for b in bases for t in tails] + [t + b for b in bases for t in tails if len(t) <= 2] + [b.replace(b'.', b'..', 1) for b in bases] + [b.replace(b'.', b'.-', 1) for b in bases]))
+    orc2 = vlib.idn_oracle(fam)
+    corr(ctx, 'is_utf8_domain(tld on, names + dots)', gens.u_lines(fam, orc2, tlds=(1, 0)), uproj, describe=describe, nontrivial=nontriv)
+    corr(ctx, 'email(tld on, names + dots)', gens.e_lines([b'x@' + d for d in fam], orc2, tlds=(1,)), lambda ln, o: (int(o.split(' ')[0]) >= 0) if o and o[0] in '-0123456789' else o, describe=describe,
+         nontrivial=lambda ln, o: not o.startswith(('-16', '-3 ')))
+    corr(ctx, 'facade(tld on, names + dots)', facade_lines([b'x@' + d for d in fam][::2], orc2, tlds=(1,)), facade_decision, describe=describe, nontrivial=lambda ln, o: True)
+    # relation on the implementation alone: with TLD checking on, nothing that is_ascii_domain rejects (on the A-label form) is accepted
+    lib = ctx.snap.lib()
+    c_u, _ = vlib.run_both(lib, ctx.snap, gens.u_lines(fam, orc2, tlds=(1,)))
+    alab = [orc2.get(d, (1, b''))[1] if orc2.get(d, (1, b''))[0] == 0 else None for d in fam]
+    c_d, _ = vlib.run_both(lib, ctx.snap, gens.dom_lines([a for a in alab if a]))
+    dd = dict(zip([a for a in alab if a], c_d))
+    nb = 0
+    for d, a, o in zip(fam, alab, c_u):
+        if a and a in dd and dd[a].split(' ')[0] != '0' and o.split(' ')[0].lstrip('-').isdigit() and int(o.split(' ')[0]) >= 0 and nb < 3:
+            nb += 1; relation_violation(ctx, 'C04_utf8_domain_implies_hostname', {'domain': hx(d), 'a_label_form': hx(a), 'is_utf8_domain(tld on)': o, 'is_ascii_domain(A-label form)': dd[a],
+                                        'explanation': 'mode 6531 accepts a domain whose A-label form is not a valid host name'})
     return finish(ctx, rule='D cases: is_ascii_domain on (s, rest); U cases: is_utf8_domain with libidn2 2.3.3 as oracle; E cases: x@domain in four modes, '
-                  'tld_check off; default and LABELS_ALLOW_UNDERSCORE builds; projection = accept/reject; non-trivial = not rejected as empty',
+                  'tld_check off and on; default and LABELS_ALLOW_UNDERSCORE builds; projection = accept/reject; non-trivial = not rejected as empty',
                   extra_trusted=['libidn2 2.3.3 as IDN oracle (its answers are inputs of the model)'])
 
 # ------------------------------------------------------------------ C03
@@ -201,7 +246,30 @@ def check_C03(ctx):
     for l, o in sorted(bad, key=lambda t: len(t[0]))[:3]:
         ctx.rep.violation({'kind': 'relation', 'relation': 'C03_ascii_agrees_with_5321', 'case': l, 'implementation': o,
                            'explanation': 'pure-ASCII local part decided differently by is_5321_local (2nd field) and is_6531_local (4th field)'})
-    return finish(ctx, rule='L cases: is_6531_local on byte strings; projection = accept/reject in mode 6531; non-trivial = non-empty input; distinct by case line')
+    # mode 6531 as a whole: the same local parts in front of a host name and of address literals (no IDN conversion is involved for these domains)
+    locs = [bytes.fromhex(l.split()[1]) for l in gens.local_class(4) if l.split()[1] != '-'] + [bytes.fromhex(l.split()[1]) for l in gens.utf8_lines(False)[::7] if l.split()[1] != '-']
+    locs += ['é'.encode(), 'a.é.b'.encode(), '"é"'.encode(), 'Ю.Я'.encode(), '€'.encode(), '😀.a'.encode(), b'a.\xc3', b'\xff']
+    locs = sorted(set(l for l in locs if 0 not in l and 0 < len(l) <= 64))
+    doms = (b'b.com', b'[1.2.3.4]', b'[IPv6:::1]', b'[1::2:3:4]')
+    addrs = [l + b'@' + d for l in locs for d in doms]
+    orc6 = vlib.idn_oracle([b'b.com'])
+    el = gens.e_lines(addrs, orc6, modes=(3,), tlds=(0,))
+    corr(ctx, 'local@domain(is_6531_email)', el, lambda ln, o: dec(o.split(' ')[0]), nontrivial=nontriv_addr,
+         describe=lambda ln, a, b: 'is_6531_email on <local>@<valid domain> decides differently from the model: %s vs %s' % (a, b),
+         note='class strings <= 4 and UTF-8 candidates as the local part before a host name, an IPv4 literal, a tagged and an untagged IPv6 literal')
+    c_e, _ = vlib.run_both(lib, ctx.snap, el)
+    ll = ['L %s %s' % (hx(l), hx(b'@b.com')) for l in locs]
+    c_l, _ = vlib.run_both(lib, ctx.snap, ll)
+    ldec = {l: o.split(' ') for l, o in zip(locs, c_l)}
+    nb = 0
+    for ln, o in zip(el, c_e):
+        a = bytes.fromhex(ln.split(' ')[3]); l = a[:a.rfind(b'@')]
+        if l in ldec and len(ldec[l]) == 4 and dec(ldec[l][3]) != dec(o.split(' ')[0]) and nb < 3:
+            nb += 1; relation_violation(ctx, 'C03_grammar_through_the_composer', {'case': ln, 'is_6531_email': o, 'is_6531_local': ldec[l][3],
+                                        'explanation': 'mode 6531 judges this local part differently depending on the (valid) domain that follows it'})
+    fl = facade_lines(addrs[::2], orc6, modes=(3,), tlds=(0,))
+    corr(ctx, 'local@domain(facade)', fl, facade_decision, nontrivial=lambda ln, o: True, describe=lambda ln, a, b: 'eav_is_email (mode 6531) decision differs from the model: %s vs %s' % (a, b))
+    return finish(ctx, rule='L cases: is_6531_local on byte strings; E/A cases: the same local parts through is_6531_email and eav_is_email before host-name and literal domains; projection = accept/reject in mode 6531; non-trivial = non-empty input; distinct by case line')
 
 # ------------------------------------------------------------------ C12
 def is_plain_ascii(b):
@@ -271,6 +339,15 @@ def check_C12(ctx):
                   extra_trusted=['libidn2 2.3.3 as IDN oracle'])
 
 # ------------------------------------------------------------------ helpers for e-mail level checks
+def facade_lines(addrs, orc, modes=(0, 1, 2, 3), tlds=(0, 1)):
+    """eav_init; rfc; tld_check; eav_setup; eav_is_email(addr); eav_errstr; eav_free — one history per (addr, mode, tld)"""
+    return ['A i r%d t%d s %s x f' % (m, t, gens.enc_e(a, orc)) for a in addrs for m in modes for t in tlds]
+def facade_decision(ln, o):
+    """projection of a facade history onto the return value of eav_is_email (or the crash)"""
+    if 'CRASH' in o or 'ABORT' in o or 'FAULT' in o: return 'CRASH'
+    tok = o.split(' ')
+    return tok[4].split(':')[0] if len(tok) > 4 else o
+
 def first_fields(k):
     return lambda ln, o: ' '.join(o.split(' ')[:k])
 def nontriv_addr(ln, o):
@@ -286,6 +363,11 @@ def check_C01(ctx):
     n = 5 if ctx.thorough() else 4
     addrs = gens.addr_class(n + 1 if ctx.thorough() else n + 1, alpha=[b'a', b'.', b'@', b'[', b']', b'1', b':']) + \
             gens.addr_class(n) + gens.addr_class(n, alpha=gens.ADDR_ALPHA_Q) + gens.addr_structured() + gens.addr_boundary()
+    # every address-literal shape (tagged / untagged IPv6 with and without an IPv4 tail, IPv4, junk) behind a plain and a quoted local part
+    addrs += [l + b'@[' + c + b']' for c in gens.ip_contents() for l in (b'u', b'"a b"')][:: (1 if ctx.thorough() else 2)]
+    addrs += [b'u@[' + c + b']' for c in gens.ip_contents()]
+    # several '@', quoted '@' after an atom, and '@' inside the domain
+    addrs += [l + b'@' + d for l in (b'a."@"', b'a."b@c"', b'a."@".b', b'"@"', b'"a@b".c', b'a@b', b'"a"@"b"', b'a.@', b'@') for d in (b'ok.com', b'[1.2.3.4]', b'b@c.com', b'test', b'')]
     addrs = sorted(set(addrs))
     orc = vlib.idn_oracle(gens.domains_of(addrs))
     el = gens.e_lines(addrs, orc)
@@ -956,7 +1038,9 @@ def check_C10(ctx):
     desc = lambda ln, a, b: 'is_utf8_domain / mode-6531 result differs from the model of theorems C10_*: implementation %s, model %s' % (a, b)
     ul = gens.u_lines(doms + alab + asc, orc)
     corr(ctx, 'is_utf8_domain(U-, A-label, ASCII)', ul, first_fields(2), describe=desc, genuine=False, nontrivial=lambda ln, o: not o.startswith('-16'))
-    el = gens.e_lines([b'u@' + d for d in (doms[::2] + alab[::2] + asc[::2]) if b'@' not in d], orc)
+    tld_rows = [('mail.' + r[0]).encode() for r in raw if any(ord(ch) > 127 for ch in r[0])]
+    tld_alab = [orc[d][1] for d in tld_rows if orc[d][0] == 0 and orc[d][1]]
+    el = gens.e_lines([b'u@' + d for d in (doms[::2] + alab[::2] + asc[::2] + tld_rows + tld_alab) if b'@' not in d], orc)
     corr(ctx, 'addresses(4 modes)', el, first_fields(3), describe=desc, genuine=False, nontrivial=nontriv_addr)
     # the relations of the property on implementation outputs
     c_u, _ = vlib.run_both(lib, ctx.snap, ul)
@@ -1244,11 +1328,12 @@ def check_C06(ctx):
     E = gens.e_lines(addrs, orc)
     U = gens.u_lines(sorted(gens.domains_of(addrs))[::3], orc)
     H = gens.hist_exhaustive(orc, 2) + gens.hist_random(ctx.rnd, orc, 1500, length=30)
-    cases = L + D + I + S + E + U
+    F = facade_lines([a for a in addrs if len(a) <= 300], orc, tlds=(1,)) + facade_lines([a for a in addrs if len(a) > 300], orc, modes=(3, 1), tlds=(1,))
+    cases = L + D + I + S + E + U + F
     desc = lambda ln, a, b: 'memory-safety run: the implementation crashed / was stopped by a sanitizer or a guard page, or answered differently from the model: %s vs %s' % (a, b)
     # (a) ASan + UBSan + LSan, every input in an exact-size heap block
     ls = ctx.snap.lib(san=True)
-    def crashed(ln, a, b): return 'CRASH' in a
+    def crashed(ln, a, b): return 'CRASH' in a or 'ABORT' in b or 'FAULT' in b
     for name, lib, env, lines in (('asan+ubsan(tight heap blocks)', ls, {'DRV_PLACE': 'tight'}, cases), ('asan+ubsan(histories)', ls, {}, H)):
         c_out, m_out = vlib.run_both(lib, ctx.snap, lines, env=env)
         ctx.rep.add_cases(name, lines, c_out, lambda ln, o: True, note='gcc -fsanitize=address,undefined -fno-sanitize-recover=all; leaks checked at exit')
